@@ -24,7 +24,8 @@ class DiscountFactor(Lemma):
         T = vc.reals("tenor", m)
         x0 = vc.reals("rate", m)
         vc.assume(And(T[0] > 0, *[a < b for a, b in zip(T, T[1:])], *[x >= 0 for x in x0]))
-        o = vc.obj("rpylib.model.levydrivensde." + cls, tenors=np.array(T, dtype=object), x0=np.array(x0, dtype=object))
+        o = vc.obj("rpylib.model.levydrivensde." + cls, tenors=np.array(T, dtype=object), x0=np.array(x0, dtype=object),
+                   deltas=np.array([b - a for a, b in zip(T, T[1:])], dtype=object))       # as set by the constructors: np.diff(tenors)
         return o, T, x0
 
     def prove(self, vc, case):
@@ -65,7 +66,8 @@ class DiscountFactor(Lemma):
         mod, cn = cls.split(":")
         M = getattr(importlib.import_module("rpylib.model.levydrivensde." + mod), cn)
         o = M.__new__(M)
-        o.tenors = np.array([1.0, 2.0, 3.0, 4.0])
+        o.tenors = np.array([1.0, 1.4, 3.0, 4.0])
+        o.deltas = np.diff(o.tenors)
         o.x0 = np.array([0.02, 0.03, 0.04, 0.035])
         ts = np.linspace(0.0, 4.0, 4001)
         d = np.array([o.df(float(t)) for t in ts])
@@ -197,6 +199,14 @@ class ExponentialDf(Lemma):
 
 
 UNITS = [DiscountFactor(), Euler(), ExponentialDf()]
+
+
+def LATE_UNITS():
+    # "for both components of the coupled pair ... all levels of the coupling": which chain drift each component of the
+    # coupled SDE uses after every level change is the contract of CouplingSDE.next_level (kept with the coupling, c03)
+    from contracts import c03
+    return [c03.SDENextLevel()]
+
 ASSUMPTIONS = ["A1: floats are mathematical reals", f"rate models with {N_TENORS} tenors (bounded in the number of tenors, complete in tenor dates, rates and times)"]
 TRUSTED_BASE = ["z3 5.1 (NRA)", "pyvc interpreter + numpy models"]
 
